@@ -330,7 +330,10 @@ fn load_targets(catalogue: &Path, only: &Option<String>, workers: usize) -> Vec<
         .filter(|p| p.extension().map(|x| x == "cairo").unwrap_or(false))
         .collect();
     files.sort();
-    let compiled = par_map(files.len(), workers, 256, |i| compile_file(&files[i]));
+    let compiled = par_map(files.len(), workers, 256, |i| {
+        std::panic::catch_unwind(std::panic::AssertUnwindSafe(|| compile_file(&files[i])))
+            .unwrap_or_else(|_| Err(format!("the compiler panicked on {:?}", files[i])))
+    });
     let mut progs: Vec<(String, String, Program)> = vec![];
     let mut errors = vec![];
     for (f, c) in files.iter().zip(compiled) {
@@ -352,7 +355,9 @@ fn load_targets(catalogue: &Path, only: &Option<String>, workers: usize) -> Vec<
     progs.sort_by(|a, b| (&a.0, &a.1).cmp(&(&b.0, &b.1)));
     let targets = par_map(progs.len(), workers, 256, |i| {
         let (file, name, p) = &progs[i];
-        Target::new(name, file, p.clone()).map_err(|e| format!("{file}::{name}: {e}"))
+        std::panic::catch_unwind(std::panic::AssertUnwindSafe(|| Target::new(name, file, p.clone())))
+            .unwrap_or_else(|_| Err("panic while building the runner".to_string()))
+            .map_err(|e| format!("{file}::{name}: {e}"))
     });
     let mut out = vec![];
     for t in targets {
@@ -621,7 +626,13 @@ fn list(opts: Opts) -> i32 {
 fn main() {
     // The simulated prover's lies make the honest prover's own code panic now and then; those
     // panics are caught and classified, the default hook would only flood stderr.
-    std::panic::set_hook(Box::new(|_| {}));
+    if std::env::var("VERIF_PANIC_TRACE").is_ok() {
+        std::panic::set_hook(Box::new(|info| {
+            eprintln!("PANIC: {info}\n{}", std::backtrace::Backtrace::force_capture());
+        }));
+    } else {
+        std::panic::set_hook(Box::new(|_| {}));
+    }
     for v in ["CAIRO_DEBUG_SIERRA_GEN", "CAIRO_DEBUG_GENERATED_CODE", "PRINT_CASM_BYTECODE_OFFSETS", "MAX_STACK_TRACE_DEPTH"] {
         // SAFETY: single-threaded at this point.
         unsafe { std::env::remove_var(v) };
